@@ -71,6 +71,9 @@ type Config struct {
 	Curve elliptic.Curve
 
 	Concurrency int // > 0: tss.Parameters.SetConcurrency (default: GOMAXPROCS)
+	// DeclaredOldN, when > 0, is the old party count handed to tss.NewReSharingParameters instead of the size of the old
+	// peer context (the library's own resharing test declares a count larger than the context it builds)
+	DeclaredOldN int
 
 	NoProofs bool  // resharing / keygen: SetNoProofMod + SetNoProofFac
 	Seed     int64 // seeds protocol randomness; 0 = crypto/rand
@@ -349,17 +352,21 @@ func New(cfg Config, sink ev.Sink) (*Session, error) {
 		oldPIDs := pidsFromShareIDs(sh, "o")
 		newPIDs := genPIDs(cfg.PartyKeys, cfg.NewN, "n", 1000)
 		oldCtx, newCtx := tss.NewPeerContext(oldPIDs), tss.NewPeerContext(newPIDs)
+		declOld := len(oldPIDs)
+		if cfg.DeclaredOldN > 0 {
+			declOld = cfg.DeclaredOldN
+		}
 		s.NOld, s.NNew = len(oldPIDs), len(newPIDs)
 		for i, pid := range oldPIDs {
 			n := mkNode(i+1, "old", pid)
 			if cfg.Proto == EdReshare {
-				params := tss.NewReSharingParameters(cfg.edCurve(), oldCtx, newCtx, pid, len(oldPIDs), cfg.T, cfg.NewN, cfg.NewT)
+				params := tss.NewReSharingParameters(cfg.edCurve(), oldCtx, newCtx, pid, declOld, cfg.T, cfg.NewN, cfg.NewT)
 				setRand(params.Parameters, n.G)
 				n.Params = params.Parameters
 				n.endKD = make(chan *edkg.LocalPartySaveData, 8)
 				n.Party = edrs.NewLocalParty(params, edKeys[i], n.out, n.endKD)
 			} else {
-				params := tss.NewReSharingParameters(cfg.ecCurve(), oldCtx, newCtx, pid, len(oldPIDs), cfg.T, cfg.NewN, cfg.NewT)
+				params := tss.NewReSharingParameters(cfg.ecCurve(), oldCtx, newCtx, pid, declOld, cfg.T, cfg.NewN, cfg.NewT)
 				setRand(params.Parameters, n.G)
 				n.Params = params.Parameters
 				n.endKE = make(chan *eckg.LocalPartySaveData, 8)
@@ -369,13 +376,13 @@ func New(cfg Config, sink ev.Sink) (*Session, error) {
 		for i, pid := range newPIDs {
 			n := mkNode(len(oldPIDs)+i+1, "new", pid)
 			if cfg.Proto == EdReshare {
-				params := tss.NewReSharingParameters(cfg.edCurve(), oldCtx, newCtx, pid, len(oldPIDs), cfg.T, cfg.NewN, cfg.NewT)
+				params := tss.NewReSharingParameters(cfg.edCurve(), oldCtx, newCtx, pid, declOld, cfg.T, cfg.NewN, cfg.NewT)
 				setRand(params.Parameters, n.G)
 				n.Params = params.Parameters
 				n.endKD = make(chan *edkg.LocalPartySaveData, 8)
 				n.Party = edrs.NewLocalParty(params, edkg.NewLocalPartySaveData(cfg.NewN), n.out, n.endKD)
 			} else {
-				params := tss.NewReSharingParameters(cfg.ecCurve(), oldCtx, newCtx, pid, len(oldPIDs), cfg.T, cfg.NewN, cfg.NewT)
+				params := tss.NewReSharingParameters(cfg.ecCurve(), oldCtx, newCtx, pid, declOld, cfg.T, cfg.NewN, cfg.NewT)
 				setRand(params.Parameters, n.G)
 				n.Params = params.Parameters
 				n.endKE = make(chan *eckg.LocalPartySaveData, 8)
